@@ -372,6 +372,41 @@ fn collect_seeds() -> Vec<(&'static str, Vec<Vec<u8>>)> {
         }
     }
     let mut out: Vec<(&'static str, Vec<Vec<u8>>)> = sink.into_inner().unwrap().into_iter().collect();
+    // seeds come from the library's own encoder: one that is not well-formed CBOR (for an
+    // independent reader) is not a seed
+    for (_, list) in out.iter_mut() {
+        list.retain(|b| refcbor::parse(b).is_ok());
+    }
+    // encoder-independent seeds for the value types (two policies, names of two lengths), so that
+    // the tree edits reach shapes such as {policy: {}} next to a non-empty policy whatever the
+    // library's encoder does
+    {
+        let ma = Node::map(vec![
+            (Node::bytes(&[0x11; 28]), Node::map(vec![(Node::bytes(b"a"), Node::uint(5))])),
+            (Node::bytes(&[0x22; 28]), Node::map(vec![(Node::bytes(b"a"), Node::uint(5)), (Node::bytes(b"bb"), Node::uint(1_000_000))])),
+        ]);
+        let mint = Node::map(vec![(Node::bytes(&[0x11; 28]), Node::map(vec![(Node::bytes(b"a"), Node::int(-5))])), (Node::bytes(&[0x22; 28]), Node::map(vec![(Node::bytes(b"bb"), Node::uint(7))]))]);
+        let value = Node::arr(vec![Node::uint(1_000_000), ma.clone()]);
+        let addr: Vec<u8> = [vec![0x61u8], vec![9u8; 28]].concat();
+        let out_legacy = Node::arr(vec![Node::bytes(&addr), value.clone()]);
+        let out_map = Node::map(vec![(Node::uint(0), Node::bytes(&addr)), (Node::uint(1), value.clone())]);
+        let mut add = |name: &'static str, n: &Node| {
+            let b = refcbor::emit(n);
+            match out.iter_mut().find(|(k, _)| *k == name) {
+                Some((_, list)) => {
+                    if !list.contains(&b) {
+                        list.push(b);
+                    }
+                }
+                None => out.push((name, vec![b])),
+            }
+        };
+        add("MultiAsset", &ma);
+        add("Mint", &mint);
+        add("Value", &value);
+        add("TransactionOutput", &out_legacy);
+        add("TransactionOutput", &out_map);
+    }
     // hand-made seeds for entry points without a generator
     out.push(("FixedTransaction", vec![minimal_tx_bytes(), full_wits_tx_bytes()]));
     out.push(("ByronAddress", vec![crate::props::c11::byron_bytes(&crate::props::c11::RefByron { root: vec![0x5a; 28], payload: Some(vec![1, 2]), magic: Some(1), typ: 0 })]));
@@ -667,6 +702,9 @@ fn sc_mutants(pairs: bool) -> impl Fn(&mut Ctx) + Sync {
                 }
                 m = refcbor::emit(&tree);
                 ctx.hit("well-formed-tree-edit");
+                if std::env::var("VERIF_DEBUG_C02").is_ok() && *tname == "MultiAsset" {
+                    eprintln!("DEBUG tree-edit MultiAsset seed {} -> {}", hx(seed), hx(&m));
+                }
             }
             _ => {
                 family = "duplicate-tail";
